@@ -129,7 +129,7 @@ Proof.
   - closed_dl K E H.
   - closed_dl K E H.
   - closed_dl K E H.
-  - destruct (nth_error (c_timers C) t) as [[i h|i|p a]|]; [| | |injection H as <- <-; apply keep_dl; auto].
+  - destruct (nth_error (c_timers C) t) as [[i h|i|p a|p]|]; [| | | |injection H as <- <-; apply keep_dl; auto].
     + unfold creq_at in H. destruct (nth_error (c_bcs C) i) as [b|] eqn:Eb; [|injection H as <- <-; apply keep_dl; auto].
       destruct (nth_error (b_reqs b) h) as [[ow [t'|] to]|] eqn:Eq; try (injection H as <- <-; apply keep_dl; auto).
       exfalso. destruct (TInvC_bc _ _ _ _ T Eb) as (I & L & A & _). destruct (A h _ t' Eq eq_refl) as [_ [X|[]]].
@@ -140,6 +140,7 @@ Proof.
       { constructor; [exact Cc | eapply TInvC_same_core; [exact T | apply upd_bc_core; intros; reflexivity] | | exact Dn | exact Tp].
         apply (same_core_down C); [apply upd_bc_core; intros; reflexivity | exact D]. }
       match type of H with ev_bc ?C0 ?i0 ?e0 = _ => exact (ev_bc_closed_dl C0 i0 e0 C' o K1 eq_refl E H) end.
+    + rewrite (phase_done C p Dn) in H. injection H as <- <-. apply keep_dl; auto.
     + rewrite (phase_done C p Dn) in H. injection H as <- <-. apply keep_dl; auto.
   - destruct (nth_error (c_boots C) a) as [[[p rid] [| |]]|]; try (injection H as <- <-; apply keep_dl; auto).
     rewrite (phase_done C p Dn) in H. injection H as <- <-. apply keep_dl; auto.
